@@ -8,17 +8,20 @@ next to the extracted model (coq/Header.v) and the property's own table (spec mo
 import os, json, re
 import vlib
 
-ELEM_TYPES = ['Int', 'Float', 'String', 'Ref', 'Tuple', 'Array', 'List', 'Table', 'Tree', 'Function', 'U0', 'U1']
+# S1, S4, S12, S20: user types of 1, 4, 12, 20 bytes (not a multiple of sizeof(var)): rounding of element sizes,
+# unaligned headers behind a key
+ELEM_TYPES = ['Int', 'Float', 'String', 'Ref', 'Tuple', 'Array', 'List', 'Table', 'Tree', 'Function', 'U0', 'U1',
+              'S1', 'S4', 'S12', 'S20']
 STACK_TYPES = ['Int', 'Float', 'String', 'Ref', 'Tuple', 'Function', 'U0', 'U1']     # struct Array/List/Table/Tree are private
-KEY_TYPES = ['Int', 'Float', 'String', 'Ref', 'Tuple', 'U0']
-GROW_KEY_TYPES = ['Int', 'Float', 'String']      # the harness can make 24 distinct keys of these
+KEY_TYPES = ['Int', 'Float', 'String', 'Ref', 'Tuple', 'U0', 'S1', 'S4', 'S12', 'S20']
+GROW_KEY_TYPES = ['Int', 'Float', 'String', 'S4', 'S12']      # the harness can make 24 distinct keys of these
 EXTRA_TYPES = ['Box', 'Range', 'File', 'Mutex']   # only constructed / put on the stack, never stored in containers
 EXTRA_STACK = ['Box', 'Range', 'File']            # struct Mutex is private
 CONTS_GET = ['Array', 'List', 'TableV', 'TreeV']
 CONTS_ITER = ['Array', 'List', 'TableK', 'TreeK']
 DELETING = ['del', 'del_raw', 'del_root', 'dealloc', 'dealloc_raw', 'dealloc_root']
 S_OPS = ['assign', 'resize', 'concat', 'append', 'print_to']
-T_OPS = ['assign', 'resize', 'concat', 'append', 'push', 'pop', 'push_at', 'pop_at', 'rem']
+T_OPS = ['assign', 'assign_iter', 'resize', 'concat', 'append', 'push', 'pop', 'push_at', 'pop_at', 'rem']
 HEAP_PRODUCERS = ['new', 'new_raw', 'new_root', 'alloc', 'alloc_raw', 'alloc_root', 'copy']
 
 
@@ -44,7 +47,7 @@ SIZED = {'String': {'assign': 'esql', 'concat': 'esql', 'append': 'esql', 'resiz
 
 def stack_buffer(p):
     """the object's buffer is not heap memory: every reallocating member must refuse whatever the sizes"""
-    return p.split(':')[0] in ('stack', 'zip_stack') or p in ('tget:stack', 'titer:stack')
+    return p.split(':')[0] in ('stack', 'static_obj', 'zip_stack') or p in ('tget:stack', 'titer:stack')
 
 
 def sized_ops(ot, p):
@@ -66,7 +69,7 @@ def producers():
             if c in ('Array', 'List'):
                 out.append((T, 'Int', 'Int', 'get:' + c, T, True))
             else:
-                for K in ('Int', 'String'):
+                for K in ('Int', 'String', 'S4', 'S12'):
                     out.append(('Int', K, T, 'get:' + c, T, True))
         for c in CONTS_ITER:
             for how in ('iter', 'last', 'next', 'prev', 'slice', 'filter', 'map'):
@@ -110,6 +113,7 @@ def producers():
     for T in EXTRA_STACK:
         out.append((T, 'Int', 'Int', 'stack', T, True))
     for T in STACK_TYPES:
+        out.append((T, 'Int', 'Int', 'static_obj', T, True))      # class AllocStatic, set up with header_init
         out.append((T, 'Int', 'Int', 'stack', T, True))
         out.append((T, 'Int', 'Int', 'tget:stack', T, True))
         out.append((T, 'Int', 'Int', 'titer:stack', T, True))
@@ -238,6 +242,9 @@ def parse_impl(line):
     if not m:
         if 'CRASH' in line or 'TIMEOUT' in line:
             return 'the library crashed or hung while the object was being obtained: ' + line.strip()[:120]
+        if 'PRODFAIL container' in line:
+            return ('the container (element/key/value types of this cell) could not even be built and filled: '
+                    + line.strip()[:120])
         return 'no object obtained: ' + line[:200]
     steps = []
     for p in parts[1:]:
